@@ -34,3 +34,6 @@ Inductive proc_ctor := CtorMpContext | CtorModuleDefault | CtorUnknown.
 
 (* does each runner pass task.filter_context(<lab context>) as the context run() sees? *)
 Record ctx_sites := { cf_serial : bool; cf_fork : bool; cf_spawn : bool }.
+
+(* utils.LoggerFileProxy.flush: are the buffered fragments cleared once emitted? *)
+Inductive flush_mode := FlushClears | FlushKeeps | FlushUnknown.
